@@ -3,7 +3,8 @@
    decided by comparing rendered HTML on the enumerated documents of the fragment F (see evidence). *)
 From Coq Require Import List NArith Bool Arith.
 Require Import PV.Spec.CMBlock PV.Proofs.CMProofs PV.Proofs.CMFuel PV.Proofs.CMInlineProofs.
-Require Import PV.Base.Str PV.Model.LinkDest PV.Proofs.LinkDestProofs PV.Model.LinkLabel PV.Proofs.LinkLabelProofs PV.Model.Tabs PV.Model.ThematicBreak PV.Proofs.ThematicBreakProofs PV.Model.AtxOpen PV.Proofs.AtxOpenProofs.
+Require Import PV.Model.Codec.
+Require Import PV.Base.Str PV.Model.LinkDest PV.Proofs.LinkDestProofs PV.Model.LinkLabel PV.Proofs.LinkLabelProofs PV.Model.Tabs PV.Model.ThematicBreak PV.Proofs.ThematicBreakProofs PV.Model.AtxOpen PV.Proofs.AtxOpenProofs PV.Model.AppendText PV.Proofs.AppendTextProofs.
 Import ListNotations.
 
 (* whatever the text: nothing that could open or close a tag or an attribute survives the renderer's escaping *)
@@ -149,6 +150,32 @@ Example atx_examples :
   atx_spec [] [35; 32; 97]%N = true /\ atx_spec [32; 32; 32]%N [35; 35; 9; 97]%N = true /\ atx_spec [] [35]%N = true /\
   atx_spec [] [35; 97]%N = false /\ atx_spec [9]%N [35; 32; 97]%N = false /\ atx_spec [] [35; 35; 35; 35; 35; 35; 35; 32; 97]%N = false /\
   atx_impl [32; 35; 35; 32; 32; 97]%N 1 [32]%N false = Some (5%nat, 2%nat, [32; 32]%N).
+Proof. repeat split; vm_compute; reflexivity. Qed.
+
+(* ---- the escaping of text on its way into a token (inline/inline_helper.py::InlineHelper.append_text) ---- *)
+Lemma esc_t_is_esc : forall s, esc_t s = esc s.
+Proof.
+  intros s. unfold esc_t, esc. apply flat_map_ext. intros c. unfold ent, esc1.
+  destruct (N.eqb c 60); [reflexivity|]. destruct (N.eqb c 62); [reflexivity|].
+  destruct (N.eqb c 38); [reflexivity|]. destruct (N.eqb c 34); reflexivity.
+Qed.
+
+(* without the signature the loop of append_text never runs out of fuel and appends exactly the specification's escaping of
+   the text (the renderer's `esc`, about which cm_escape_safe speaks), for every text *)
+Theorem append_text_is_esc : forall prefix text, append_impl prefix text false = Some (prefix ++ esc text).
+Proof. intros prefix text. rewrite append_impl_spec_l, whole_plain_is_esc, esc_t_is_esc. reflexivity. Qed.
+Print Assumptions append_text_is_esc.
+
+(* with the signature (the parser's use) the token text carries both: for every text free of the codec's five control
+   characters, the codec of C02 recovers the source from it (remove_all) and shows the renderer the escaped text (resolve_all) *)
+Theorem append_text_roundtrip : forall text, clean_text text = true ->
+  exists tok, append_impl [] text true = Some tok /\ remove_all tok = Some text /\ resolve_all tok = Some (esc text).
+Proof. intros text H. destruct (append_roundtrip_l text H) as (tok & A & B & C). exists tok. rewrite <- esc_t_is_esc. auto. Qed.
+Print Assumptions append_text_roundtrip.
+
+Example append_text_examples :
+  append_impl [120]%N [97; 60; 98; 38]%N false = Some [120; 97; 38; 108; 116; 59; 98; 38; 97; 109; 112; 59]%N /\
+  append_impl [] [60]%N true = Some [7; 60; 7; 38; 108; 116; 59; 7]%N /\ clean_text [97; 60; 34]%N = true.
 Proof. repeat split; vm_compute; reflexivity. Qed.
 
 (* the model is a total function: the CommonMark examples it must reproduce, as regression facts *)
